@@ -10,6 +10,7 @@ mod s_cks;
 mod s_pkglen;
 mod s_scalars;
 mod s_tables;
+mod s_fixed;
 mod g_tables;
 mod sinks;
 
@@ -32,6 +33,7 @@ fn streams() -> Vec<(&'static str, GenFn, RunFn)> {
         ("tbl", g_tables::gen_tbl as GenFn, s_tables::run_tbl as RunFn),
         ("tblbig", g_tables::gen_tblbig as GenFn, s_tables::run_tbl as RunFn),
         ("ent", g_tables::gen_ent as GenFn, s_tables::run_ent as RunFn),
+        ("fix", s_fixed::gen_fix as GenFn, s_fixed::run_fix as RunFn),
     ]
 }
 
